@@ -386,5 +386,5 @@ def r_equiv(ctx, a):
             ctx.oracle_close('uv_nodal_to_vor_div_modal: fast = E(real) (divergence)', np.asarray(vf[1]), E(np.asarray(vr[1]), M, L, fs), scale=sv)
 
 
-RUNNERS = {'mesh': r_mesh, 'jit_static': r_jit_static, 'default_stacked': r_default_stacked, 'related': r_related, 'layout': base.r_layout,
+RUNNERS = {'cache_integrity': base.r_cache_integrity, 'mesh': r_mesh, 'jit_static': r_jit_static, 'default_stacked': r_default_stacked, 'related': r_related, 'layout': base.r_layout,
            'transforms': base.r_transforms, 'equiv': r_equiv}
